@@ -216,6 +216,47 @@ Section Runs.
       cbn [Model.step snd]. unfold find_local_id. reflexivity.
     Qed.
 
+    Lemma part_find : all_events find_event tr.
+    Proof.
+      intros pre e post E.
+      destruct (at_event [] [] ops pre e post (inv_init is_user) Hgood E) as (a & o & b & _ & _ & -> & _ & _ & HIa & Hwf & _).
+      intros u flt Eo. unfold Steps.ev in Eo |- *. cbn [e_op e_out e_pre] in Eo |- *. subst o.
+      assert (Hu : is_user u = true) by (destruct Hwf as (W1 & _); apply W1; reflexivity).
+      cbn [Model.step snd]. unfold find_nameid.
+      destruct (lookup u (final_state [] a)) as [v|] eqn:Ev.
+      - rewrite (inv_fw_elements is_user _ _ u v HIa Hu Ev).
+        destruct (decoded_decode_all (elements v)) as (all & H1 & H2).
+        { intros c Hc. rewrite <- (inv_fw_elements is_user _ _ u v HIa Hu Ev) in Hc.
+          destruct (inv_codes _ _ _ HIa u c Hu Hc) as (n & t & -> & _). exists (norm n). apply decode_code. }
+        rewrite H2. exists all. split; [exact H1|reflexivity].
+      - exists []. unfold fw. rewrite Ev. split; reflexivity.
+    Qed.
+
+    Lemma part_lookup : all_events lookup_event tr.
+    Proof.
+      intros pre e post E.
+      destruct (at_event [] [] ops pre e post (inv_init is_user) Hgood E) as (a & o & b & _ & _ & -> & _ & _ & HIa & Hwf & _).
+      intros u s q n Eo Hout. unfold Steps.ev in Eo, Hout |- *. cbn [e_op e_out e_pre] in Eo, Hout |- *. subst o.
+      assert (Hu : is_user u = true) by (destruct Hwf as (W1 & _); apply W1; reflexivity).
+      cbn [Model.step snd] in Hout.
+      destruct (match_local_id (final_state [] a) u s q) as [[m|]|ex] eqn:Em; try discriminate.
+      inversion Hout; subst m.
+      destruct (match_some_stored _ u s q n Em) as (v & c & Hv & Hc & Hd & Hf & Hm).
+      destruct (in_elements_fw _ u v c Hv Hc) as [->|Hin].
+      - rewrite decode_empty in Hd. inversion Hd; subst n. discriminate.
+      - destruct (inv_codes _ _ _ HIa u c Hu Hin) as (n0 & t & -> & _).
+        rewrite decode_code in Hd. inversion Hd; subst n. rewrite code_norm.
+        split; [exact Hin|]. split; [apply ostr_eqb_eq; exact Hf|].
+        apply nid_matches_iff in Hm as [H1 H2]. split; apply same_q_normo; assumption.
+    Qed.
+
+    Lemma part_effect : all_events effect_event tr.
+    Proof.
+      intros pre e post E.
+      destruct (at_event [] [] ops pre e post (inv_init is_user) Hgood E) as (a & o & b & _ & _ & -> & _ & _ & HIa & Hwf & _).
+      apply (effect_ok cfg is_user _ _ o pre HIa Hwf).
+    Qed.
+
     (* the situation at an ordered pair of events: ei asks for an identifier and gets ni *)
     Lemma at_pair pre ei mid ej post u f s q ni :
       tr = (pre ++ ei :: mid ++ ej :: post)%list ->
@@ -303,10 +344,12 @@ Section Runs.
     Theorem parts_hold :
       all_pairs (stable_pair cfg) tr /\ all_pairs (distinct_pair cfg) tr /\ all_pairs (reverse_pair cfg) tr
       /\ all_events (valued_event cfg) tr /\ all_events (transient_event cfg) tr /\ all_events manage_event tr
-      /\ all_events (consistent_event is_user) tr /\ all_events (issued_event cfg) tr /\ all_events findlocal_event tr.
+      /\ all_events (consistent_event is_user) tr /\ all_events (issued_event cfg) tr /\ all_events findlocal_event tr
+      /\ all_events find_event tr /\ all_events lookup_event tr /\ all_events effect_event tr.
     Proof.
       exact (conj part_stable (conj part_distinct (conj part_reverse (conj part_valued
-               (conj part_transient (conj part_manage (conj part_consistent (conj part_issued part_findlocal)))))))).
+               (conj part_transient (conj part_manage (conj part_consistent (conj part_issued
+               (conj part_findlocal (conj part_find (conj part_lookup part_effect))))))))))).
     Qed.
   End Parts.
 
@@ -343,6 +386,12 @@ Section Named.
   Lemma issued_is_stored : all_events (issued_event cfg) tr.
   Proof. apply Hall. Qed.
   Lemma findlocal_is_store : all_events findlocal_event tr.
+  Proof. apply Hall. Qed.
+  Lemma find_is_filter : all_events find_event tr.
+  Proof. apply Hall. Qed.
+  Lemma lookup_is_stored : all_events lookup_event tr.
+  Proof. apply Hall. Qed.
+  Lemma manage_takes_effect : all_events effect_event tr.
   Proof. apply Hall. Qed.
 End Named.
 
@@ -462,15 +511,64 @@ Definition ex_stale_rev : trace :=
 
 Lemma new_parts_independent :
   (wf ex_cfg ex_user ex_stale
-   /\ ident_spec_parts_b ex_cfg ex_user ex_stale = [true; true; true; true; true; true; true; false; true]
+   /\ ident_spec_parts_b ex_cfg ex_user ex_stale = [true; true; true; true; true; true; true; false; true; true; true; true]
    /\ ~ ident_spec ex_cfg ex_user ex_stale)
   /\ (wf ex_cfg ex_user ex_stale_rev
-      /\ ident_spec_parts_b ex_cfg ex_user ex_stale_rev = [true; true; true; true; true; true; true; true; false]
+      /\ ident_spec_parts_b ex_cfg ex_user ex_stale_rev = [true; true; true; true; true; true; true; true; false; true; true; true]
       /\ ~ ident_spec ex_cfg ex_user ex_stale_rev).
 Proof.
   split; (split; [apply wf_b_iff; vm_compute; reflexivity|]); (split; [vm_compute; reflexivity|]);
     intros H; apply ident_spec_b_iff in H; vm_compute in H; discriminate.
 Qed.
+
+(* (strengthening round 4) the three parts added in round 4 say something the former nine do not.
+   ex_lastfield: the observed trace of a find_nameid whose filter loop lets the LAST field decide -- alice holds a
+   persistent identifier for requester 1 and a transient one for requester 2; asked for {sp_name_qualifier = requester 2,
+   format = persistent} it answers requester 1's persistent identifier -- satisfies wf and the nine former parts and
+   fails exactly "find = the matching stored identifiers".  ex_shared: the observed trace of a lookup that answers a
+   NameID object shared between calls (it still carries the SPProvidedID a terminated NewID gave it, the store does
+   not) fails exactly "a lookup answers what the store holds". *)
+Definition ex_sp2 := Some "sp,2=x".
+Definition ex_two : list op := [Persistent "alice" ex_sp ex_nq "id-1"; Transient "alice" ex_sp2 ex_nq "tr-1"].
+Definition ex_lastfield : trace :=
+  (mtrace ex_cfg [] ex_two
+   ++ [ {| e_op := FindNameid "alice" [(1, ex_sp2); (2, Some NF_PERSISTENT)]; e_out := ONids [ex_p1];
+           e_pre := final_state ex_cfg [] ex_two; e_post := final_state ex_cfg [] ex_two |} ])%list.
+Definition ex_shared : trace :=
+  (mtrace ex_cfg [] ex_two
+   ++ [ {| e_op := MatchLocal "alice" ex_sp ex_nq;
+           e_out := ONid (mkN ex_nq ex_sp (Some NF_PERSISTENT) (Some "new id") (Some "id-1"));
+           e_pre := final_state ex_cfg [] ex_two; e_post := final_state ex_cfg [] ex_two |} ])%list.
+
+(* ex_refused: the observed trace of a manage-name-id handler that refuses (ValueError, store untouched) a NewID for an
+   identifier the store holds -- what dropping the copy of the presented NameID does -- fails exactly "takes effect" *)
+Definition ex_refused : trace :=
+  (mtrace ex_cfg [] ex_two
+   ++ [ {| e_op := Manage ex_p1 (Some (Some "new id")) false false; e_out := OExc ValueErr;
+           e_pre := final_state ex_cfg [] ex_two; e_post := final_state ex_cfg [] ex_two |} ])%list.
+
+Lemma round4_parts_independent :
+  (wf ex_cfg ex_user ex_lastfield
+   /\ ident_spec_parts_b ex_cfg ex_user ex_lastfield = [true; true; true; true; true; true; true; true; true; false; true; true]
+   /\ ~ ident_spec ex_cfg ex_user ex_lastfield)
+  /\ (wf ex_cfg ex_user ex_shared
+      /\ ident_spec_parts_b ex_cfg ex_user ex_shared = [true; true; true; true; true; true; true; true; true; true; false; true]
+      /\ ~ ident_spec ex_cfg ex_user ex_shared)
+  /\ (wf ex_cfg ex_user ex_refused
+      /\ ident_spec_parts_b ex_cfg ex_user ex_refused = [true; true; true; true; true; true; true; true; true; true; true; false]
+      /\ ~ ident_spec ex_cfg ex_user ex_refused).
+Proof.
+  split; [|split]; (split; [apply wf_b_iff; vm_compute; reflexivity|]); (split; [vm_compute; reflexivity|]);
+    intros H; apply ident_spec_b_iff in H; vm_compute in H; discriminate.
+Qed.
+
+(* and on the model the same two lookups answer: nothing for {requester 2, persistent}; the stored identifier *)
+Example round4_model_answers :
+  snd (step ex_cfg (final_state ex_cfg [] ex_two) (FindNameid "alice" [(1, ex_sp2); (2, Some NF_PERSISTENT)])) = ONids []
+  /\ snd (step ex_cfg (final_state ex_cfg [] ex_two) (FindNameid "alice" [(2, Some NF_PERSISTENT); (1, ex_sp2)])) = ONids []
+  /\ snd (step ex_cfg (final_state ex_cfg [] ex_two) (FindNameid "alice" [(2, Some NF_PERSISTENT)])) = ONids [ex_p1]
+  /\ snd (step ex_cfg (final_state ex_cfg [] ex_two) (MatchLocal "alice" ex_sp ex_nq)) = ONid ex_p1.
+Proof. repeat split; vm_compute; reflexivity. Qed.
 
 (* ------------------------------------------------------------------ encoding *)
 Theorem codec_holds l : codec_spec (map (fun n => (n, code n, decode (code n))) l).
